@@ -66,7 +66,7 @@ def _scenario(draw, tier):
                 ops.append(["restart"])
             elif kind == "hmc":
                 ops.append(["revers", draw(st.integers(0, 2 ** 16)), draw(st.integers(1, 6))])
-    return dict(cfg=cfg, ops=ops,
+    return dict(cfg=cfg, ops=ops, stray_start=(draw(st.integers(1, 64)) if cfg["bounds"] is not None and draw(st.integers(0, 11)) == 0 else 0),
                 faults=dict(tail_p=draw(st.sampled_from([0.0, 0.05, 0.2])), edge_u_p=draw(st.sampled_from([0.0, 0.05]))))
 
 
@@ -300,9 +300,25 @@ def execute(sc):
     c = rctx.new_run(cfg["seed"], faults=sc["faults"])
     seams.seed_global_streams(cfg["seed"])
     with seams.Seams(clock=seams.FakeClock()):
+        inputs = None
+        if sc.get("stray_start") and cfg.get("bounds") is not None:
+            # a start that is (partly) outside the bounds given with it: either the constructor refuses it, or whatever
+            # it builds still keeps every recorded sample and every evaluation inside
+            inputs = lc.make_inputs(cfg)
+            hi_ = np.asarray(cfg["bounds"][1], dtype=float)
+            wd_ = hi_ - np.asarray(cfg["bounds"][0], dtype=float)
+            st_ = inputs["start"]
+            if st_.ndim == 2:
+                st_[int(sc["stray_start"]) % st_.shape[0], 0] = hi_[0] + 0.5 * wd_[0]
+            else:
+                st_[0] = hi_[0] + 0.5 * wd_[0]
+            stats["fault_start_outside_the_bounds"] += 1
         try:
-            h = lc.Harnessed(cfg, "s0")
+            h = lc.Harnessed(cfg, "s0", inputs=inputs)
         except LibRaised as e:
+            if inputs is not None:
+                stats["probe_start_outside_refused"] += 1
+                return dict(violations=[], stats=dict(stats), digest=digest(sc), nontrivial=True, shape=cfg["kind"], sim_seconds=0.0)
             return dict(violations=[dict(invariant="op.raised", detail=str(e), key={})], stats={}, digest=digest(sc),
                         nontrivial=False, shape=cfg["kind"], sim_seconds=0.0)
         L = Limits(h.d, cfg["bounds"])
